@@ -17,6 +17,12 @@ pub struct InputCase {
     pub style: Style,
     pub seed: u64,
     pub replies: Vec<String>,
+    /// An INPUT exchange abandoned (or completed) at the prompt before RUN:
+    /// 0 none; 1 `INPUT Q` then break; 2 `INPUT Q`, a rejected reply, then
+    /// break; 3 `INPUT Q$` answered; 4 the program itself run to its first
+    /// input request and broken off there.
+    #[serde(default)]
+    pub prelude: u8,
 }
 
 /// Replies inside the documented reply grammar (no empty interior items, no
@@ -32,7 +38,7 @@ pub fn replies() -> impl Strategy<Value = Vec<String>> {
 
 fn case() -> impl Strategy<Value = InputCase> {
     let cfg = GenCfg { max_blocks: 10, allow_stop: false, ..GenCfg::C03.with_input() };
-    (gen::program(cfg), gen::style(), prop_oneof![Just(0u64), any::<u64>()], replies()).prop_map(|(prog, style, seed, replies)| InputCase { prog, style, seed, replies })
+    (gen::program(cfg), gen::style(), prop_oneof![Just(0u64), any::<u64>()], replies(), prop_oneof![3 => Just(0u8), 2 => 1u8..5]).prop_map(|(prog, style, seed, replies, prelude)| InputCase { prog, style, seed, replies, prelude })
 }
 
 #[derive(Debug, PartialEq, Clone)]
@@ -96,10 +102,46 @@ fn check(c: &InputCase, rec: &mut CaseRec) -> Verdict {
         Ok(Err(e)) => return Verdict::fail("valid-line-rejected", format!("{:?} in {:?}", e, lines)),
         Ok(Ok(())) => {}
     }
-    let show = |why: String| format!("{}; program {:?} replies {:?}", why, lines, c.replies);
+    let show = |why: String| format!("{}; program {:?} replies {:?} prelude {}", why, lines, c.replies, c.prelude);
     let mut mb = BUDGET;
     let mut ib = 4 * BUDGET + 100;
     let mut out: Vec<Out> = vec![];
+    // "Whenever a program reaches INPUT" includes: after an earlier exchange was abandoned.
+    if c.prelude != 0 {
+        let pre = (|| -> Result<(), Crash> {
+            let mut scratch = vec![];
+            let mut b = 200u64;
+            match c.prelude {
+                1 | 2 => {
+                    sess.line_and_run("INPUT Q", &mut b, &mut scratch)?;
+                    if c.prelude == 2 && sess.state()? == St::AwaitingInput {
+                        sess.reply("abc")?;
+                        sess.run_on(&mut b, &mut scratch)?;
+                    }
+                }
+                3 => {
+                    sess.line_and_run("INPUT Q$", &mut b, &mut scratch)?;
+                    if sess.state()? == St::AwaitingInput {
+                        sess.reply("x")?;
+                        sess.run_on(&mut b, &mut scratch)?;
+                    }
+                }
+                _ => {
+                    sess.line_and_run("RUN", &mut b, &mut scratch)?;
+                }
+            }
+            if sess.state()? != St::Idle {
+                sess.brk()?;
+            }
+            // the RUN below must start from the same random-number state as the model
+            sess.randomize(c.seed);
+            Ok(())
+        })();
+        if let Err(Crash(p)) = pre {
+            return Verdict::fail("panic", show(p));
+        }
+        rec.class("after-abandoned-exchange");
+    }
     let mut stop = match sess.line_and_run("RUN", &mut ib, &mut out) {
         Ok(s) => s,
         Err(Crash(p)) => return Verdict::fail("panic", show(p)),
